@@ -59,6 +59,8 @@ class T:
         self.depth = 0          # contexts entered by this task itself
         self.alive = True
         self.services = 0
+        self.pre = None
+        self.pre_parent = None
 
     async def next(self):
         while not self.box:
@@ -100,8 +102,11 @@ class Env:
         while True:
             cmd = await t.next()
             k = cmd["op"]
-            if k == "Enter":
-                ctx = Context()
+            if k in ("Enter", "EnterPre"):
+                if k == "Enter":
+                    ctx = Context()
+                else:
+                    ctx, t.pre = t.pre, None
                 nm = env.name(ctx, t)
                 try:
                     with anyio.CancelScope() as scope:
@@ -130,6 +135,8 @@ class Env:
                 env.reports.append({"k": "Current", "c": env.name(env.cur())})
             elif k == "NewCtx":
                 ctx = Context()
+                t.pre = ctx
+                t.pre_parent = env.name(ctx.parent)
                 env.name(ctx, t)
                 env.reports.append({"k": "Parent", "p": env.name(ctx.parent)})
             elif k == "CompProbe":
@@ -197,6 +204,8 @@ class Env:
         if stale:
             return {"op": "Observe", "t": t.idx} if k < 0.7 or t.idx == 0 or t.depth or t.services else \
                 {"op": "Finish", "t": t.idx}
+        if k < 0.10 and t.depth < 4 and t.pre is not None and (t.pre_parent is None or tuple(t.pre_parent) not in self.closed):
+            return {"op": "EnterPre", "t": t.idx}
         if k < 0.28 and t.depth < 4:
             return {"op": "Enter", "t": t.idx}
         if k < 0.50 and t.depth > 0 and t.services == 0 and self.may_leave(t):
